@@ -151,7 +151,9 @@ theorem multisig_source :
     Gen.Auth.multiAddress =
       "var together []byte; for _, k := range b.PubKeys() { together = append(together, k...) }; threshold := make([]byte, 4); binary.BigEndian.PutUint32(threshold, b.threshold); together = append(together, threshold...); return Address(Hash(together)[:20])" ∧
     Gen.Auth.multiDecodeGuards =
-      ["len(mpk.PublicKeys) == 0 || len(mpk.Bitmap) == 0 || mpk.Threshold > uint32(len(mpk.PublicKeys))", "exists"] := by
+      ["len(mpk.PublicKeys) == 0 || len(mpk.Bitmap) == 0 || mpk.Threshold > uint32(len(mpk.PublicKeys))", "exists",
+       -- 8c75cbd: padding bits of the signer bitmap must be zero (C06: replay-by-multisig-bitmap-padding)
+       "n % 8 != 0 && mpk.Bitmap[len(mpk.Bitmap) - 1] >> uint(n % 8) != 0"] := by
   decide
 
 /-- `VerifyRLPBytes`: the transaction re-derived from the raw bytes must hash like the submitted one
